@@ -138,6 +138,18 @@ def runCalls (solve : List (List K) → List K → List K) (p : Nat) (cs : List 
     List (List K × K) × List K :=
   runCallsWith callPost solve p cs a
 
+/-- round 2 (L7): a call with its OWN order on the caller's array; `none` = the call is refused — the sequence is shorter than
+`order + 1` (`AR_est_LD` raises `IndexError` part-way through its loop, `AR_est_YW` `ValueError` in `solve`) -/
+def callOutE (solve : List (List K) → List K → List K) (c : EstCall) (p : Nat) (a : List K) : Option (List K × K) :=
+  if a.length < p + 1 then none else some (callOut solve p c a)
+
+/-- a program of calls with their own orders, some of them refused, on ONE array: outcomes in call order, and the array afterwards -/
+def runCallsE (solve : List (List K) → List K → List K) : List (EstCall × Nat) → List K → List (Option (List K × K)) × List K
+  | [], a => ([], a)
+  | (c, p) :: cs, a =>
+    let r := runCallsE solve cs (callPost c a)
+    (callOutE solve c p a :: r.1, r.2)
+
 /-! ### AR_psd / freq_response -/
 
 /-- `scipy.signal.freqz(b, a, worN=n, whole=whole, include_nyquist=incl)[1]` -/
@@ -322,6 +334,17 @@ def handle (args : List String) : String :=
       let cs := calls.toList.map fun ch => if ch = 'L' then EstCall.LD else EstCall.YW
       let res := runCalls solveCF o cs r
       "ok " ++ " ".intercalate (res.1.map fun e => showCList e.1 ++ " " ++ showCList [e.2]) ++ " " ++ showCList res.2
+    | _, _ => "bad-op"
+  | ["seqe", calls, rs] => match parseCList? rs, (calls.splitOn ",").mapM (fun (t : String) =>
+        match t.toList with
+        | ch :: ds => (String.ofList ds).toNat?.map fun o => (if ch = 'L' then EstCall.LD else EstCall.YW, o)
+        | [] => none) with
+    | some r, some cs =>
+      -- calls with their own orders (>= 1), some refused (order beyond the sequence): `E` for a refused call
+      let res := runCallsE solveCF cs r
+      "ok " ++ " ".intercalate (res.1.map fun e => match e with
+        | some e => showCList e.1 ++ " " ++ showCList [e.2]
+        | none => "E") ++ " " ++ showCList res.2
     | _, _ => "bad-op"
   | ["ld", o, rs] => match o.toNat?, parseCList? rs with
     | some o, some r => if o = 0 ∨ r.length < o + 1 then "err IndexError" else showEst (arLD (fnOf r) o)
